@@ -869,4 +869,43 @@ theorem root_i (c : B) (hwf : WF (P1 A z err r buf line column pending lb flag))
 
 end
 
+/-! ### one step, any shape -/
+
+/-- ★ lock-step: removing the oldest queued value commutes with one consumer step, the parser stays well formed, the queue
+    only grows and its bottom element stays in place -/
+theorem step_dropQ (scan : List B → Option String) (p : Parser) (c : B) (A : List Value) (z : Value)
+    (hwf : WF p) (hp : 1 ≤ p.pending) (hargs : p.args = A ++ [z]) :
+    step scan (dropQ p) c = (dropQ (step scan p c).1, (step scan p c).2) ∧ Sim z p (step scan p c).1 := by
+  obtain ⟨args, err, states, buf, line, column, pending, lb, flag⟩ := p
+  simp only at hargs hp
+  subst hargs
+  cases states with
+  | nil => have := hwf.ok; simp [okFrames] at this
+  | cons top rest =>
+    cases rest with
+    | nil =>
+      have hok1 : okFrames [top] = true := hwf.ok
+      have hrc : top.consumer = .root := by
+        have : top.consumer = .root ∧ hasFlag top.flags PFLAG_CONTAINER = true := by simpa [okFrames, isCont] using hok1
+        exact this.1
+      have h := root_i A z err top buf line column pending lb flag c hwf hp
+      show step scan (dropQ (P1 A z err top buf line column pending lb flag)) c = _ ∧ _
+      rw [dropQ_P1]
+      simpa [step, P1, Q1, hrc] using h
+    | cons g l =>
+      have hd : dropQ (P2 A z err top g l buf line column pending lb flag) = Q2 A err top g l buf line column pending lb flag :=
+        dropQ_P2 A z err top g l buf line column pending lb flag
+      show step scan (dropQ (P2 A z err top g l buf line column pending lb flag)) c = _ ∧ _
+      rw [hd]
+      cases hc : top.consumer
+      case root => simpa [step, P2, Q2, hc] using root_ii A z err top g l buf line column pending lb flag c hwf hp hc
+      case tokenchar => simpa [step, P2, Q2, hc] using tokenchar_ii scan A z err top g l buf line column pending lb flag c hwf hp hc
+      case stringchar => simpa [step, P2, Q2, hc] using stringchar_ii A z err top g l buf line column pending lb flag c hwf hp hc
+      case escape1 => simpa [step, P2, Q2, hc] using escape1_ii A z err top g l buf line column pending lb flag c hwf hp hc
+      case escapeh => simpa [step, P2, Q2, hc] using escapeh_ii A z err top g l buf line column pending lb flag c hwf hp hc
+      case escapeu => simpa [step, P2, Q2, hc] using escapeu_ii A z err top g l buf line column pending lb flag c hwf hp hc
+      case longstring => simpa [step, P2, Q2, hc] using longstring_ii A z err top g l buf line column pending lb flag c hwf hp hc
+      case comment => simpa [step, P2, Q2, hc] using comment_ii A z err top g l buf line column pending lb flag c hwf hp hc
+      case atsign => simpa [step, P2, Q2, hc] using atsign_ii A z err top g l buf line column pending lb flag c hwf hp hc
+
 end JanetModel.Parse
